@@ -439,6 +439,7 @@ func uniqLeaf(l ref.Leaf, v ref.V, i int) ref.V {
 // aggregation across pages starts from an empty, non-nil bound).
 func LeadEmpty(root *ref.Node, rows []ref.V, k int) {
 	for i := range rows {
+		rows[i] = CloneV(rows[i]) // rows expanded from one pool entry share their slices
 		for c := range root.Children {
 			if c < len(rows[i].F) {
 				leadNode(&root.Children[c], &rows[i].F[c], i < k)
@@ -490,4 +491,112 @@ func leadContent(n *ref.Node, v *ref.V, empty bool) {
 			}
 		}
 	}
+}
+
+// Carry rewrites every variable-length byte array leaf (map keys excepted) as a
+// function of the row index so that the column is ascending (descending when
+// desc) and alternates between short keys K(c) and long values K(c)+0xFF…+tail
+// that sort just below K(c+1): the upper bound obtained by truncating such a
+// long value to a size limit inside the 0xFF run and incrementing it carries
+// into the key and overshoots the short key that follows.
+func Carry(root *ref.Node, rows []ref.V, klen, ff, period int, desc bool) {
+	n := len(rows)
+	vals := make([][]byte, n)
+	c, tail := 0, 0
+	for k := 0; k < n; k++ {
+		// a new short key about once per period, at irregular distances
+		h := uint32(k+1) * 2654435761
+		h ^= h >> 15
+		short := k == 0 || int(h%uint32(period)) == 0
+		if short {
+			c, tail = c+1, 0
+		} else {
+			tail++
+		}
+		b := make([]byte, klen, klen+ff+2)
+		for j, x := klen-1, c; j >= 0; j-- {
+			b[j] = byte(x)
+			x >>= 8
+		}
+		if !short {
+			for j := 0; j < ff; j++ {
+				b = append(b, 0xFF)
+			}
+			b = append(b, byte(tail>>8), byte(tail))
+		}
+		vals[k] = b
+	}
+	for i := range rows {
+		k := i
+		if desc {
+			k = n - 1 - i
+		}
+		rows[i] = CloneV(rows[i]) // rows expanded from one pool entry share their slices
+		for ci := range root.Children {
+			if ci < len(rows[i].F) {
+				carryNode(&root.Children[ci], &rows[i].F[ci], vals[k])
+			}
+		}
+	}
+}
+
+func carryNode(n *ref.Node, v *ref.V, b []byte) {
+	if v.Null {
+		return
+	}
+	if n.Rep == "rep" {
+		for i := range v.L {
+			carryContent(n, &v.L[i], b)
+		}
+		return
+	}
+	carryContent(n, v, b)
+}
+
+func carryContent(n *ref.Node, v *ref.V, b []byte) {
+	switch n.Kind {
+	case "leaf":
+		l := ref.ParseLeaf(n.Leaf)
+		if !l.IsBytes() || l.Phys == ref.FLBA || l.Phys == ref.Int96 || l.Order != ref.OrderBytes {
+			return
+		}
+		v.B = append([]byte(nil), b...)
+	case "group":
+		for i := range n.Children {
+			if i < len(v.F) {
+				carryNode(&n.Children[i], &v.F[i], b)
+			}
+		}
+	case "list":
+		for i := range v.L {
+			carryNode(&n.Children[0], &v.L[i], b)
+		}
+	case "map":
+		for i := range v.L {
+			if len(v.L[i].F) > 1 {
+				carryNode(&n.Children[1], &v.L[i].F[1], b)
+			}
+		}
+	}
+}
+
+// CloneV returns a deep copy of a value tree.
+func CloneV(v ref.V) ref.V {
+	out := v
+	if v.B != nil {
+		out.B = append([]byte{}, v.B...)
+	}
+	if v.L != nil {
+		out.L = make([]ref.V, len(v.L))
+		for i := range v.L {
+			out.L[i] = CloneV(v.L[i])
+		}
+	}
+	if v.F != nil {
+		out.F = make([]ref.V, len(v.F))
+		for i := range v.F {
+			out.F[i] = CloneV(v.F[i])
+		}
+	}
+	return out
 }
